@@ -941,6 +941,9 @@ func (t *translator) emitFunc(tg *Target, w *bytes.Buffer) {
 	if tg.NakedRet != "" {
 		fmt.Fprintf(w, "   a return without results (and the end of a body without results)  =>  %s\n", tg.NakedRet)
 	}
+	if tg.NakedRet != "" {
+		fmt.Fprintf(w, "   a result-less return  =>  %s\n", tg.NakedRet)
+	}
 	if kv != nil {
 		fmt.Fprintf(w, "   only the value of the composite-literal entry at line %d: %s\n", t.fset.Position(kv.Pos()).Line, t.src(kv))
 	}
